@@ -96,13 +96,21 @@ def rules(ctx: Ctx) -> None:
            f"Column.__eq__ compares {col.eq_projs}; `parent` is a lossy projection ({'; '.join(col.lossy.values())}), so two unresolved columns of the same name with different "
            f"owner candidates are one node")
     SH = prog.cls("core.holders.SQLLineageHolder")
-    fold = SH.methods.get("_build_digraph")
-    if fold is None:
-        raise AnalysisError("_build_digraph not found")
-    ctx.touched(fold)
-    pair_loops = [n for n in prog.walk_fn(fold) if isinstance(n, ast.For) and isinstance(n.target, ast.Tuple) and len(n.target.elts) == 2 and isinstance(n.iter, ast.Name) and "unresolved" in n.iter.id]
-    if len(pair_loops) != 1:
+
+    def _pair_list(fn: Fn, name: str) -> bool:
+        """`name` is bound to a list comprehension over <graph>.edges filtered on parent_candidates."""
+        return any(kind == "assign" and isinstance(node.value, ast.ListComp) and isinstance(node.value.generators[0].iter, ast.Attribute) and node.value.generators[0].iter.attr == "edges"
+                   and "parent_candidates" in u(node.value) for kind, node in prog.local_defs(fn, name))
+
+    fold = None
+    pair_loops = []
+    for m in SH.methods.values():
+        pls = [n for n in prog.walk_fn(m) if isinstance(n, ast.For) and isinstance(n.target, ast.Tuple) and len(n.target.elts) == 2 and isinstance(n.iter, ast.Name) and _pair_list(m, n.iter.id)]
+        if pls:
+            fold, pair_loops = m, pls
+    if fold is None or len(pair_loops) != 1:
         raise AnalysisError("repair loop over (unresolved column, target) pairs not found")
+    ctx.touched(fold)
     PL = pair_loops[0]
     a, b = u(PL.target.elts[0]), u(PL.target.elts[1])
     for k in ast.walk(PL):
@@ -117,7 +125,7 @@ def rules(ctx: Ctx) -> None:
     ctx.ob("R04.3", "repair:pairs-independent", True, loc(fold.mod, PL), "pair loop scanned", trivial=True)
     # the list of pairs is computed before the loop from the whole graph
     pdefs = [node.value for kind, node in prog.local_defs(fold, PL.iter.id) if kind == "assign"]
-    ok_pairs = len(pdefs) == 1 and isinstance(pdefs[0], ast.ListComp) and "g.edges" in u(pdefs[0].generators[0].iter) and "parent_candidates" in u(pdefs[0])
+    ok_pairs = len(pdefs) == 1 and isinstance(pdefs[0], ast.ListComp) and isinstance(pdefs[0].generators[0].iter, ast.Attribute) and pdefs[0].generators[0].iter.attr == "edges" and "parent_candidates" in u(pdefs[0])
     ctx.ob("R04.3", "repair:pairs-are-all-edges-leaving-unresolved-columns", ok_pairs, loc(fold.mod, PL), "every edge leaving a multi-candidate column is a pair to repair")
     # orphan sweep after the loop
     fcfg = flow(prog, fold).cfg
